@@ -37,6 +37,13 @@ BOXES = {
     'tric': [[5.1, 0.2, -0.3], [0.4, 6.2, 0.5], [-0.6, 0.7, 7.3]],
     'round': [[1.234565, 0.0, 0.0], [0.000005, 2.000015, 0.0], [-1.0000049, 3.1234551, 12.999995]],
 }
+# one non-zero off-diagonal component in each of the six positions (the 9-number box line stores all of them)
+for _i in range(3):
+    for _j in range(3):
+        if _i != _j:
+            _b = [[5.0, 0.0, 0.0], [0.0, 6.0, 0.0], [0.0, 0.0, 7.0]]
+            _b[_i][_j] = 0.25 * (1 + _i) * (-1 if _j > _i else 1)
+            BOXES[f'off{_i}{_j}'] = _b
 P4_NAMES = (('A', 'H12'), ('ABCDE', 'ABCDE'))
 P4_NUMBERS = (1, 99999, 1234567)
 P4_COORDS = ('mid', 'ext', 'tie')
@@ -297,7 +304,7 @@ class C13(Check):
     technique = ('exhaustive enumeration of four input sub-products on the real GroFile writer and reader over '
                  'real files; statement oracle + independent reference reader on the written bytes')
     level_text = ('every member of P1 (6x6 names x 10x10 numbers), P2 (7 formats x 45 boundary triples x velocities x '
-                  '1..3 records), P3 (7 formats x velocities x 4 titles x 4 boxes x count mode), P4 (interaction product, '
+                  '1..3 records), P3 (7 formats x velocities x 5 titles x 10 boxes (incl. one for each single off-diagonal component) x count mode), P4 (interaction product, '
                   '3024 x 1..3 records) and 299/300-record files is written by the real writer to a real file and read '
                   'back, in both tiers; thorough adds the full 15^3 cube of the coordinate alphabet per format x velocities '
                   'and the sizes 9, 10, 99, 100; coverage of that finite product, not a proof over all reals / strings')
@@ -355,6 +362,9 @@ class C13(Check):
                 for dec in (0, 1):
                     u.append({'p': 'P4', 'fmt': f, 'vel': vel, 'declared': dec, 'nrecs': list(nrecs)})
             u.append({'p': 'size', 'fmt': f, 'sizes': list(sizes)})
+        for f in FORMATS:
+            u.append({'p': 'seq', 'fmt': f})
+        self.bounds['sequences_of_two_files'] = 'every ordered pair of different formats x velocities on/off for each file, same process'
         if thorough:
             for f in FORMATS:
                 for vel in (0, 1):
@@ -394,6 +404,12 @@ class C13(Check):
                                     yield {'p': 'P4', 'fmt': unit['fmt'], 'vel': unit['vel'],
                                            'declared': unit['declared'], 'names': names, 'num': num,
                                            'coord': coord, 'title': title, 'box': box, 'nrec': nrec}
+        elif p == 'seq':
+            for va in (0, 1):
+                for fb in FORMATS:
+                    if fb != unit['fmt']:
+                        for vb in (va, 1 - va):
+                            yield {'p': 'seq', 'a': [unit['fmt'], va], 'b': [fb, vb]}
         elif p == 'size':
             for n in unit['sizes']:
                 for vel in (0, 1):
@@ -403,6 +419,23 @@ class C13(Check):
 
     # -- one case --------------------------------------------------------------------------------
     def check_case(self, case, R, seed):
+        if case['p'] == 'seq':
+            # two files written one after the other by the same process, with different position formats:
+            # nothing of the first file's format may leak into the second
+            for which, (fmt, vel) in enumerate((case['a'], case['b'])):
+                sub = {'p': 'P3', 'fmt': fmt, 'vel': vel, 'title': 'spaces', 'box': 'tric', 'declared': which}
+                spec = build_spec(sub, seed)
+                with self._path() as path:
+                    obs = roundtrip(path, spec)
+                verdicts = judge(spec, obs)
+                seen = set()
+                for sig, det in verdicts:
+                    if sig not in seen:
+                        seen.add(sig)
+                        R.violation('sequence-of-files/' + sig, case, ('first' if which == 0 else 'second') + ' file: ' + str(det))
+                R.case(dict(case, file=which), nontrivial=obs['raw'] is not None,
+                       outcome=verdicts[0][0] if verdicts else 'round-trip ok', cls='seq/' + ('vel' if vel else 'novel'))
+            return
         spec = build_spec(case, seed)
         with self._path() as path:
             obs = roundtrip(path, spec)
